@@ -419,6 +419,24 @@ func runC02(res *hx.Result, rng *hx.Rng, tier string, outdir string) {
 				failf("reencode", fmt.Sprintf("value %s: encoding %x, decoded and re-encoded %x", d.canon(), enc, re.Bytes()))
 			}
 		}
+		// oracle: what the stream hands out per Read call does not matter
+		for rk := 1; rk <= 3 && len(input) < 5000; rk++ {
+			readerKind = rk
+			o2 := newValue(input)
+			same := o2.class == o.class && o2.left == o.left
+			if same && o.v != nil && o2.v != nil && o2.v.canon() != o.v.canon() {
+				same = false
+			}
+			if !same {
+				got := "<none>"
+				if o2.v != nil {
+					got = o2.v.canon()
+				}
+				res.Fail("decoder-fragmentation", fmt.Sprintf("value %s encoding %x: NewValue gives class %d, %d left from a *bytes.Reader and class %d, %s, %d left from reader kind %d (1 = *bytes.Buffer, 2 = one byte per Read, 3 = data together with EOF)",
+					d.canon(), enc, o.class, o.left, o2.class, got, o2.left, rk))
+			}
+		}
+		readerKind = 0
 		nontrivial := d.depth() >= 2 || (d.kind == "O" && d.t.Depth() >= 2) || len(trail) > 0
 		res.Count(d.canon()+fmt.Sprintf("|%x", trail), nontrivial)
 		res.Dist("kind:" + d.kind)
